@@ -140,7 +140,11 @@ def check(model: Model, run: Run) -> None:
         by_attr = bool(_re.search(rf"\.{idattr}\s*(==|!=)|(==|!=)\s*[\w.]+\.{idattr}\b", src))
         # ... or through a shared helper that is told the name of the id attribute: getattr(choice, <that parameter>) compared with the tag number
         by_name = (f"'{idattr}'" in src or f'"{idattr}"' in src) and bool(_re.search(r"getattr\([^)]*\)\s*(==|!=)|(==|!=)\s*getattr\(", src))
-        ok = bfi is not None and "CONTEXT_SPECIFIC" in src and (by_attr or by_name) and ".choices" in src and "tag_number" in src
+        # ... or through a getter object handed to the helper: operator.attrgetter("<id>") applied to the choice and compared
+        by_getter = bool(_re.search(rf"attrgetter\(['\"]{idattr}['\"]\)", src)) and bool(_re.search(r"\w+\(\w+\)\s*(==|!=)|(==|!=)\s*\w+\(\w+\)", src))
+        ok = bfi is not None and "CONTEXT_SPECIFIC" in src and (by_attr or by_name or by_getter) and ".choices" in src and "tag_number" in src
+        if not ok and bfi is not None and idattr in src and ".choices" in src and not (by_attr or by_name or by_getter):
+            raise AnalysisError(f"{short(base)}.unpack mentions {idattr} and options.choices but the comparison with the tag number is spelled in a way D4 does not read")
         run.ob("D4-choice-dispatcher", ok, {"base": short(base)})
         if not ok:
             run.fail(Finding("D4-choice-dispatcher", base + ".unpack", "dispatcher shape", f"{short(base)}.unpack does not dispatch on the context tag number over options.choices", ""))
@@ -359,9 +363,28 @@ def purity(model: Model, run: Run, ex) -> None:
                     if gq and gq not in model.classes and gq not in model.functions and gq.rsplit(".", 1)[0] in model.modules:
                         gm, gn = gq.rsplit(".", 1)
                         sts = [s_ for s_ in model.modules[gm].globals_.get(gn, []) if isinstance(s_, (ast.Assign, ast.AnnAssign)) and s_.value is not None]
-                        if sts and any(isinstance(s_.value, (ast.Call, ast.Dict, ast.List, ast.Set)) and
-                                       not (isinstance(s_.value, ast.Call) and norm(s_.value.func).split(".")[-1] in ("compile", "TypeVar", "frozenset", "tuple", "namedtuple", "Struct"))
-                                       for s_ in sts):
+                        def immutable_value(v: ast.expr) -> bool:
+                            """a value nobody can change after import: constants, compiled patterns, tuples / frozensets, partials of
+                            package callables over such values, and instances of the package's NamedTuple classes built from them"""
+                            if isinstance(v, ast.Constant) or (isinstance(v, (ast.Name, ast.Attribute)) and not isinstance(v, ast.Call)):
+                                return True
+                            if isinstance(v, ast.Tuple):
+                                return all(immutable_value(e_) for e_ in v.elts)
+                            if isinstance(v, ast.Call):
+                                fn = norm(v.func)
+                                if fn.split(".")[-1] in ("compile", "TypeVar", "frozenset", "tuple", "namedtuple", "Struct", "attrgetter", "itemgetter", "bytes"):
+                                    return True
+                                args_ok = all(immutable_value(a_) for a_ in v.args) and all(immutable_value(k_.value) for k_ in v.keywords)
+                                if fn.split(".")[-1] == "partial":
+                                    return args_ok
+                                cq_ = model.resolve_name(gm, fn)
+                                if cq_ in model.classes and any(b.endswith("NamedTuple") for b in model.classes[cq_].bases):
+                                    return args_ok
+                                if cq_ in model.functions and "classmethod" in model.functions[cq_].decorators and model.functions[cq_].cls and \
+                                        any(b.endswith("NamedTuple") for b in model.classes[model.functions[cq_].cls].bases):
+                                    return args_ok      # ASN1Tag.universal_tag(...)
+                            return False
+                        if sts and any(isinstance(s_.value, (ast.Call, ast.Dict, ast.List, ast.Set)) and not immutable_value(s_.value) for s_ in sts):
                             bad = f"module-level object `{x.id}` (shared between all messages and sessions)"
                 if isinstance(x, ast.Attribute) and isinstance(x.ctx, (ast.Store, ast.Del)):
                     bad = f"attribute write `{norm(x)}`"
